@@ -5,19 +5,21 @@ idiom) of that check.  Writes /verif/benign/<id>/result.json."""
 import json, os, subprocess, sys
 from concurrent.futures import ThreadPoolExecutor
 ROOT = "/verif"
+# the tree the patches are applied to: /repo, or a scratch worktree named by VERIF_REPO (check.sh analyses the same tree)
+REPO = os.environ.get("VERIF_REPO", "/repo")
 def sh(cmd, cwd=None):
     p = subprocess.run(cmd, shell=True, cwd=cwd, capture_output=True, text=True, errors="replace")
     return p.returncode, p.stdout + p.stderr
 def main():
     ids = sys.argv[1:] or sorted(os.listdir(f"{ROOT}/benign"))
-    if sh("git -C /repo status --porcelain")[1].strip():
-        print("refusing: /repo working tree is not clean"); sys.exit(2)
+    if sh(f"git -C {REPO} status --porcelain")[1].strip():
+        print(f"refusing: {REPO} working tree is not clean"); sys.exit(2)
     props = [c["property_id"] for c in json.load(open(f"{ROOT}/MANIFEST.json"))["checks"]]
     for bid in ids:
         d = f"{ROOT}/benign/{bid}"
         if not os.path.exists(f"{d}/patch.diff"):
             continue
-        rc, out = sh(f"git -C /repo apply {d}/patch.diff")
+        rc, out = sh(f"git -C {REPO} apply {d}/patch.diff")
         res = {"id": bid, "applies": rc == 0, "alarms": {}}
         try:
             if rc == 0:
@@ -30,13 +32,13 @@ def main():
                         if rc2 != 0:
                             res["alarms"][pr] = {"exit": rc2, "reports": lines[:8]}
         finally:
-            sh("git -C /repo checkout -- . && git -C /repo clean -fdq")
+            sh(f"git -C {REPO} checkout -- . && git -C {REPO} clean -fdq")
         json.dump(res, open(f"{d}/result.json", "w"), indent=1)
         print(f"{bid:14s} applies={res['applies']} alarms={sorted(res['alarms'])}")
         for pr, a in res["alarms"].items():
             for l in a["reports"][:3]:
                 print("     ", pr, l[:260])
     for pr in props:
-        sh(f"./check.sh {pr} quick", cwd=ROOT)
+        sh(f"VERIF_REPO=/repo ./check.sh {pr} quick", cwd=ROOT)
 if __name__ == "__main__":
     main()
